@@ -1189,7 +1189,9 @@ pub fn monitors_e2e(trace: &Trace, sc: &Scenario, mon: &mut crate::Mon) {
     // uplink, the loss count the loop reports can have risen (restarts after a reconnect aside) by no more than the
     // number of NAKs the receiver sent for packets THAT uplink carried, and all uplinks together by no more than
     // the number of NAKs sent
-    if !trace.naks.is_empty() {
+    // (not judged in overload scenarios: there the receiver's own socket drops arrivals, so it does not know every
+    // uplink a packet travelled on, and the sender's 16384-slot tracker is overrun by design)
+    if !trace.naks.is_empty() && sc.flood.1 == 0 {
         mon.count("e2e-scenario-with-naks");
         if trace.naks.iter().any(|n| n.2 != n.3) {
             mon.count("e2e-scenario-with-cross-link-naks");
@@ -1211,7 +1213,9 @@ pub fn monitors_e2e(trace: &Trace, sc: &Scenario, mon: &mut crate::Mon) {
                     None => prev = None,
                 }
             }
-            let carried = trace.naks.iter().filter(|n| n.2 == *o).count() as i64;
+            // "carried": some copy of the NAKed packet travelled on this uplink (the unique copy, or a duplicate probe -
+            // the receiver NAKs the copy it saw on uplink 1, the charge follows the sender's record of the unique copy)
+            let carried = trace.naks.iter().filter(|n| n.2 == *o || seen_on.get(&n.1).is_some_and(|v| v.contains(o))).count() as i64;
             total_rise += rise;
             if rise > carried {
                 mon.fail("C05", "e2e-nak-charged-to-non-carrier", format!("real event loop [{what}]: the loss count of uplink 127.0.0.{o} rose by {rise} over the run, but the receiver sent only {carried} NAK(s) for packets that uplink carried ({} NAKs in all, {} of them returned over another uplink)", trace.naks.len(), trace.naks.iter().filter(|n| n.2 != n.3).count()));
